@@ -1919,7 +1919,7 @@ func lemmaForwardSession(raw *rawEnvelope) (e *Session, e3 *Session, accepted bo
 //@   props C07 C09
 //@   requires srvInv(c)
 //@   requires [C07] @clientword c.state == SessionStateNegotiating ==> c.transport.nSentSes > 0 && c.transport.stage == 1 && istype(c.transport.lastRecv, *Session) && recvSes(c.channel).State == SessionStateNegotiating && recvSes(c.channel).ID == c.sessionID
-//@   requires [C09] @offered c.state == SessionStateNegotiating ==> inset(elems(c.transport.offerEnc), encrypt) && inset(elems(c.transport.offerComp), comp) && recvSes(c.channel).Encryption == encrypt && recvSes(c.channel).Compression == comp
+//@   requires [C09,C10] @offered c.state == SessionStateNegotiating ==> inset(elems(c.transport.offerEnc), encrypt) && inset(elems(c.transport.offerComp), comp) && recvSes(c.channel).Encryption == encrypt && recvSes(c.channel).Compression == comp
 //@   modifies c.transport.connected, c.transport.nSent, c.transport.lastSent, c.transport.nSentSes, c.transport.lastSes, c.transport.stage, c.transport.offerEnc, c.transport.offerComp, c.transport.offerSchemes, c.transport.confEnc, c.transport.confComp
 //@   ensures result == nil ==> old(c.state) == SessionStateNegotiating && c.transport.stage == 2 && c.transport.nSentSes > 0 && c.transport.confEnc == encrypt && c.transport.confComp == comp
 //@   ensures result != nil ==> c.transport.stage == old(c.transport.stage) && c.transport.nSentSes == old(c.transport.nSentSes)
